@@ -300,7 +300,13 @@ func TestCheck(t *testing.T) {
 			bound = 2
 		}
 		for _, sc := range scenarios() {
-			st := e3.Explore(c, t, sc, bound)
+			b := bound
+			// thorough: two departures where Close races the reconnect loop or the accept; the
+			// Close/Close and Open/Close/Send overlaps stay at one (cost: ~50 k executions each at two)
+			if b > 1 && !strings.Contains(sc.Name, "drop-reconnect-vs-close") && !strings.Contains(sc.Name, "accept-vs-close") {
+				b = 1
+			}
+			st := e3.Explore(c, t, sc, b)
 			c.Add("e3_executions", int64(st.Execs))
 		}
 	})
